@@ -42,8 +42,8 @@ func classifyScan(pc *pathCtx, fn *ssa.Function, idx ssa.Value, s ssa.Value) (sc
 		if !ok {
 			return false
 		}
-		// the loop continues on the true edge (accept negation)
-		return pred(cd, !cd.Neg)
+		// the loop continues on the true edge (accept negation and either operand order)
+		return anyPresentation(cd, !cd.Neg, pred)
 	}
 	ltLen := func(iv ssa.Value) func(cd path.Cond, truth bool) bool {
 		return func(cd path.Cond, truth bool) bool {
